@@ -841,6 +841,8 @@ class Ghost:
                 if "cancel_at" not in I.ctx.inputs:
                     I.ctx.register_input("cancel_at", lambda m, k=k: k)
                 d["log"].items.append(("cancel",))
+                if d.get("on_cancel") is not None:
+                    I.call(d["on_cancel"], [], {}, node)
                 I.throw("CancelledError", node=node)
         d["log"].items.append(("sleep", delay))
         if self.loop is not None:
@@ -861,6 +863,7 @@ class Ghost:
             "log": log,
             "on_sleep": args[2] if len(args) > 2 else kwargs.get("on_sleep"),
             "cancellable": bool(args[3] if len(args) > 3 else kwargs.get("cancellable", False)),
+            "on_cancel": args[4] if len(args) > 4 else kwargs.get("on_cancel"),
             "cancelled": False,
             "count": 0,
         }
